@@ -1072,6 +1072,33 @@ func stringsStub(base string) intrinsic {
 	case "TrimSpace", "Title":
 		return func(m *machine, c *frame, fn *ssa.Function, a []value) value {
 			s, ok := concStr(a[0])
+			if !ok && base == "TrimSpace" {
+				// symbolic string: ASCII white space is decided byte by byte from both
+				// ends (each a decision); a non-ASCII byte at an examined position is
+				// not modelled (Unicode spaces) and makes that path inconclusive
+				b := m.strBytes(a[0])
+				isSpace := func(ch value) bool {
+					t := m.bvOf(ch, 8)
+					if !t.isConst() {
+						hi := m.tt.Cmp("bvuge", t, m.tt.BVConst(0x80, 8))
+						if !hi.isFalse() && m.checkSat(hi) != "unsat" {
+							if m.decide([]*Term{m.tt.Not(hi), hi}, true) == 1 {
+								unsupp("strings.TrimSpace on symbolic non-ASCII byte")
+							}
+						}
+					}
+					sp := m.tt.Or(m.tt.Eq(t, m.tt.BVConst(' ', 8)), m.tt.And(m.tt.Cmp("bvule", m.tt.BVConst(9, 8), t), m.tt.Cmp("bvule", t, m.tt.BVConst(13, 8))))
+					return m.branch(m.lower(sp, 0, false))
+				}
+				start, end := 0, len(b)
+				for start < end && isSpace(b[start]) {
+					start++
+				}
+				for end > start && isSpace(b[end-1]) {
+					end--
+				}
+				return mkString(append([]value{}, b[start:end]...))
+			}
 			if !ok {
 				unsupp("strings.%s on symbolic string", base)
 			}
